@@ -8,6 +8,7 @@ Modes:
 """
 
 SSL_LIBS = ["-lssl", "-lcrypto"]
+MBED_LIBS = ["-lmbedtls", "-lmbedx509", "-lmbedcrypto"]
 CRYPTO = ["-lcrypto"]
 GMP = ["-lgmp"]
 
@@ -41,7 +42,7 @@ PROPS["C01"] = dict(
     assumptions=["OpenSSL 3.0 libssl is a correct independent TLS 1.0-1.2 peer for the 28 suites it shares with BearSSL",
                  "3DES and static-ECDH suites are checked Bear<->Bear plus the independent wiretap codec only (no foreign handshake implementation speaks them here)",
                  "OpenSSL EVP primitives used by the wiretap codec are correct"],
-    targets=[dict(name="c01_session", src="c01_session.cpp", flavour="san", libs=SSL_LIBS, noseed=True)],
+    targets=[dict(name="c01_session", src="c01_session.cpp", flavour="san", libs=SSL_LIBS + MBED_LIBS, noseed=True)],
     quick=[("c01_session", "enum", dict(shards=16)),
            ("c01_session", "rc", dict(cases=6400, shards=16))],
     thorough=[("c01_session", "enum", dict(shards=16)),
